@@ -457,6 +457,9 @@ def run_impl(case):
                 res = f"ok {s} {e}"
             except Exception as ex:
                 res = classify(ex)
+                if "frozen" in str(ex) and not frozen[h] and res == "refused":
+                    fails.append(("C02", "a map that was never frozen, used as a window or handed over refuses an addition as frozen "
+                                         "(an earlier refused call froze it)", len(obs) + 1))
             emit(emit_line, res)
             # ---- oracles
             if res.startswith("ok"):
@@ -516,7 +519,7 @@ def run_impl(case):
             m, c = maps[h], maps[ch]
             before = snapshot(h)
             cur_before = m.align_to(0)
-            child_frozen_before = frozen[ch]
+            child_frozen_before = getattr(c, "_frozen", None)
             try:
                 s, e, r = m.add_window(c, name=wname, addr=waddr, sparse=sparse)
                 res = f"ok {s} {e} {r}"
@@ -564,6 +567,8 @@ def run_impl(case):
                     stats["refused"] += 1
                 if snapshot(h) != before or m.align_to(0) != cur_before:
                     fails.append(("C02", "refused add_window changed the map", len(obs)))
+                if child_frozen_before is False and getattr(c, "_frozen", None) is True and not frozen[ch]:
+                    fails.append(("C02", "refused add_window half-applied: the window map it was given is left frozen", len(obs)))
                     if profile == "names":
                         fails.append(("C18", f"add_window refused (window name {wname}) changed the map (contents or the next implicit address)", len(obs)))
                 qs = [tuple(wname)] if wname is not None else sorted(visible[ch], key=str)
